@@ -223,3 +223,19 @@ Fixpoint walk (lbl : option string) (st : symtab) (us : list (annot * value)) (s
       | x => x
       end
   end.
+
+(* the verdict of a walk over the uses of one call in a fresh context (C02) *)
+Definition run_walk (st : symtab) (steps : list step) : string :=
+  let mk stp := match parse_dims (s_dim stp) with
+                | Ok d => Some (mkannot (s_any stp) (s_dtypes stp) d false, s_val stp)
+                | Err _ => None
+                end in
+  let fix all (l : list step) : option (list (annot * value)) :=
+      match l with
+      | [] => Some []
+      | x :: r => match mk x, all r with Some u, Some us => Some (u :: us) | _, _ => None end
+      end in
+  match all steps with
+  | None => "ValueError"
+  | Some us => show_verdict (fst (walk None st us (push_memo [] [])))
+  end.
